@@ -454,8 +454,8 @@ func afterBlockGov(s *scn, h uint64, txs []*pb.BxhTransaction, metas []*txMeta, 
 			if ib == nil || ib.Category() != pb.IBTP_REQUEST || ib.Group != nil || i >= len(ref.Receipts) {
 				continue
 			}
-			if metas[i].kind != "ibtp" {
-				continue
+			if metas[i].kind != "ibtp" && metas[i].kind != "relay" {
+				continue // (a request relayed from another BitXHub is gated by its local destination like any other)
 			}
 			rc := ref.Receipts[i]
 			fp, tp := strings.Split(ib.From, ":"), strings.Split(ib.To, ":")
@@ -489,9 +489,12 @@ func afterBlockGov(s *scn, h uint64, txs []*pb.BxhTransaction, metas []*txMeta, 
 		if _, ok := gm.proposals[id]; !ok {
 			mp := &mProposal{id: id, votes: map[string]string{}, createdAt: h, ineligible: map[string]string{}}
 			// "administrators who were eligible when it was created": an administrator whose role was frozen, forbidden,
-			// activating or logouting before and after the creating block was not
+			// activating or logouting before and after the creating block, with nothing happening to that role in the block, was not
 			for i := 0; i < s.cfg.World.Admins; i++ {
 				a := s.cfg.World.adminKey(i).Addr.String()
+				if touched[a] || touched["*"] {
+					continue // something happened to that role in this very block: its status while the proposal was created is not known
+				}
 				if x, y := prevSt["role:"+a], curSt["role:"+a]; x == y && (x == "frozen" || x == "forbidden" || x == "activating" || x == "logouting") {
 					mp.ineligible[a] = x
 				}
